@@ -20,7 +20,7 @@ def spec():
         InputParameterInt, InputParameterFloat, InputParameterStr,
         InputParameterBool, InputParameterQuantity,
         InputParameterSelectionList, InputParameterUnit)
-    from pydsol.core.units import Length, Duration
+    from pydsol.core.units import Length, Duration, Energy, Torque
 
     def isint(v):
         return isinstance(v, int) and not isinstance(v, bool)
@@ -62,6 +62,17 @@ def spec():
                   Length(1, "km"), Length(-1, "mm"), Duration(5, "s"), 5.0,
                   None, Length(math.nan, "m")],
             ok=lambda v: isinstance(v, Length) and 0 <= v.si <= 100),
+        "qty2": dict(
+            # a quantity class whose SI signature is shared by another class
+            mk=lambda k, par, pr, d, ro: InputParameterQuantity(
+                k, "n", d, pr, parent=par, read_only=ro, min_si=0.0,
+                max_si=100.0),
+            good=[Energy(5, "J"), Energy(0.01, "kJ")],
+            bad=[Energy(1, "kJ"), 5.0, None],
+            vals=[Energy(0, "J"), Energy(100, "J"), Torque(5, "N.m"),
+                  Torque(50, "N.m"), Energy(-1, "J"), Energy(1, "kJ"), 5,
+                  Length(5, "m")],
+            ok=lambda v: type(v) is Energy and 0 <= v.si <= 100),
         "sel": dict(
             mk=lambda k, par, pr, d, ro: InputParameterSelectionList(
                 k, "n", ["a", "b"], d, pr, parent=par, read_only=ro),
